@@ -24,6 +24,9 @@ type genCfg struct {
 	// fullKinds: the main file has structs, a union, an exception, two enums and two typedefs at least
 	// (the positional pairing of registerGoTypes is exercised across all groups); at most 2 files
 	fullKinds bool
+	// oddNames: definition names that are not their own Go names (snake_case, lower case, trailing
+	// underscore, initialisms) — generated code must address descriptors by the IDL name
+	oddNames bool
 }
 
 type rtype struct {
@@ -213,6 +216,21 @@ func (g *gen) name(fi int, kind byte, prefix string) string {
 	for {
 		g.ctr++
 		n := fmt.Sprintf("%s%d", prefix, g.ctr)
+		if g.cfg.oddNames && kind != 'c' && g.r.Chance(55) {
+			lp := strings.ToLower(prefix)
+			switch g.r.Intn(5) {
+			case 0:
+				n = fmt.Sprintf("%s_item_%d", lp, g.ctr) // snake_case
+			case 1:
+				n = fmt.Sprintf("%s%d", lp, g.ctr) // lower case
+			case 2:
+				n = fmt.Sprintf("%s%d_", prefix, g.ctr) // trailing underscore
+			case 3:
+				n = fmt.Sprintf("%s_url_id%d", lp, g.ctr) // initialisms
+			default:
+				n = fmt.Sprintf("%s_%d_x", prefix, g.ctr)
+			}
+		}
 		if !g.used[fi][n] {
 			g.used[fi][n] = true
 			g.names[kind] = append(g.names[kind], n)
